@@ -134,9 +134,19 @@ class Shadow:
         """What the adapter's _bind_implicit wants to see of the model's pre-state."""
         return {'maps': self.mp, 'layers': self.ly}
 
-    def can_set(self, m, p, node, stale, pool=True):
+    def target(self, m, p):
+        """The map a key leads to through maps that exist (None: some would have to be made)."""
+        cur = m
+        for k in p[:-1]:
+            cur = self.mp[cur].get(k)
+            if cur is None:
+                return None
+        return cur
+
+    def can_set(self, m, p, node, stale, pool=True, moves=True):
         """The generated domain of SetItem (see the comment in Resources.tla); pool=False: ids for implicit maps
-        never run out (the caller sizes the pool afterwards)."""
+        never run out (the caller sizes the pool afterwards); moves=False: no staging moves (the caller keeps no
+        record of stale places)."""
         root = self.order[0]
         if node == root or node == m:
             return False
@@ -145,7 +155,11 @@ class Shadow:
             return False
         if node in self.held:
             pl = self.places(node)
-            if not (m in self.sub(root) and len(pl) == 1 and all(x != root and x not in self.held for x, _n in pl)):
+            moved = moves and m in self.sub(root) and len(pl) == 1 and all(x != root and x not in self.held for x, _n in pl)
+            # (again) stored once more where it is, through maps that exist: every other place it has is stale
+            here = (self.target(m, p), p[-1])
+            again = here in pl and all((x, n, node) in stale for x, n in pl if (x, n) != here)
+            if not (moved or again):
                 return False
         if is_map:
             below = self.sub(node)
@@ -177,7 +191,19 @@ def _path(rnd, sh, start, weights, bias):
     return tuple(p)
 
 
-def _draw(rnd, ad, sh, K, stale, cached, snaps, ident, k):
+def _keys_to(rnd, sh, x, n):
+    """A map and a key that lead to name n of map x: from x itself or from a map one or two levels above it."""
+    m, p = x, (n,)
+    for _ in range(rnd.choice((0, 0, 1, 2))):
+        up = sorted((y, k) for y, d in sh.mp.items() for k, c in d.items() if c == m)
+        if not up or len(p) == 3:
+            break
+        y, k = rnd.choice(up)
+        m, p = y, (k,) + p
+    return m, p
+
+
+def _draw(rnd, ad, sh, K, stale, cached, snaps, ident, k, mirrored=()):
     """One random call (op, args) inside the generated domain, or (op, None)."""
     order, hd = list(K['MapOrder']), list(K['Hd'])
     root = order[0]
@@ -191,6 +217,12 @@ def _draw(rnd, ad, sh, K, stale, cached, snaps, ident, k):
     op = rnd.choices(list(w), list(w.values()))[0]
     args = None
     if op == 'SetItem':
+        if sh.held and rnd.random() < 0.12:
+            # a resource that is in the tree is stored again where it is (nothing changes)
+            node = rnd.choice(sorted(sh.held))
+            m, p = _keys_to(rnd, sh, *rnd.choice(sorted(sh.places(node))))
+            if sh.can_set(m, p, node, stale):
+                return op, (m, p, node)
         for _try in range(12):
             m = rnd.choice(sorted(sh.sub(root))) if rnd.random() < 0.6 else rnd.choice(order)
             staged = [n for n in nodes if n in sh.held] if rnd.random() < 0.25 else []
@@ -223,15 +255,33 @@ def _draw(rnd, ad, sh, K, stale, cached, snaps, ident, k):
     else:                               # reads of / mutation attempts on a snapshot node
         x = rnd.choice(snaps)
         pool = NAMES if op != 'SAttr' else ident
-        here = [n for n in sh.names(x) if n in pool]
+        # names the mirrored map has now, and names the snapshot has (its map may have moved on)
+        here = sorted({n for n in sh.names(x) if n in pool} | {n for sx, n in mirrored if sx == x and n in pool})
         if pool:
             args = (x, rnd.choice(here) if here and rnd.random() < 0.8 else rnd.choice(pool))
     return op, args
 
 
-def _follow_ups(rnd, sh, K, op, args, obs):
+def _follow_ups(rnd, sh, K, op, args, obs, ident=()):
     """Short scripted continuations of the call just made: histories a uniform draw rarely completes."""
     root = K['MapOrder'][0]
+    if op == 'Snapshot' and obs['ret'][0] == 'snap' and obs['smirror'] and rnd.random() < 0.5:
+        # the map moves on where the snapshot looks - a name of a mirrored map gets a resource of the other kind, or
+        # one more level, or the map is cleared - and the snapshot taken before is read there: it has not moved
+        x, n, was, _c = rnd.choice(obs['smirror'])
+        free = [c for c in list(K['MapOrder'][1:]) + list(K['Hd']) if c not in sh.held and c != x and
+                (c in K['Hd']) == (was == 'snap')]
+        change = rnd.choice(('other', 'deeper', 'clear'))
+        if change == 'other' and free:
+            plan = [('SetItem', (x, (n,), rnd.choice(free)))]
+        elif change == 'deeper' and [h for h in K['Hd'] if h not in sh.held]:
+            plan = [('SetItem', (x, (n, rnd.choice(NAMES)), rnd.choice([h for h in K['Hd'] if h not in sh.held])))]
+        else:
+            plan = [('Clear', (x,))]
+        reads = [('SItem', (x, n)), ('SGet', (x, n)), ('SItem', (x, n))]
+        if n in ident:
+            reads.insert(1, ('SAttr', (x, n)))
+        return plan + reads[:rnd.choice((1, 2, len(reads)))]
     if op in ('SItem', 'SAttr', 'GetItem', 'Call') and obs['ret'][0] == 'val' and rnd.random() < 0.3:
         # the same access again after the handle was cleared (and again without a clear)
         hs = sorted({h for h, _k in obs['ret'][1]} & set(obs['loaded'])) or sorted(h for h, _k in obs['ret'][1])
@@ -281,7 +331,7 @@ def event(op, args, obs):
 
 def record(desper, K, seed, n_traces, n_calls):
     rnd = random.Random(seed)
-    ad = Recorder(desper, probe=False, depth=K['MaxDepth'])
+    ad = Recorder(desper, probe=False, depth=K['MaxDepth'], keep_snap=K.get('KeepSnap', 10 ** 6))
     order, hd = list(K['MapOrder']), list(K['Hd'])
     traces = []
     for _t in range(n_traces):
@@ -294,6 +344,7 @@ def record(desper, K, seed, n_traces, n_calls):
         cached = {h: False for h in hd}
         events = []
         plan = []               # follow-ups of the last call, tried first (dropped when no longer enabled)
+        mirrored = set()        # (snapshot node, name) the snapshot at hand has
         while len(events) < n_calls:
             snaps = sorted(ad.env.snaps)
             if plan:
@@ -302,20 +353,23 @@ def record(desper, K, seed, n_traces, n_calls):
                     plan = []
                     continue
             else:
-                op, args = _draw(rnd, ad, sh, K, stale, cached, snaps, ident, len(events))
+                op, args = _draw(rnd, ad, sh, K, stale, cached, snaps, ident, len(events), mirrored)
             if args is None:
                 continue
             places = sh.places(args[2]) if op == 'SetItem' else ()
+            here = (sh.target(args[0], args[1]), args[1][-1]) if op == 'SetItem' else None
             obs = ad.step(op, args, sh.pre())
+            mirrored = {(t[0], t[1]) for t in obs['smirror']}
             events.append(event(op, args, obs))
             # shadow state from the real objects (for the generator's preconditions only)
             sh = Shadow.read(ad)
             cached = {h: bool(c) for h, c in obs['cached'].items()}
             if op == 'SetItem':
-                stale = {t for t in stale | {(x, n, args[2]) for x, n in places} if sh.place_in(t)}
+                # (the place it is stored at is not a superseded one, also when it was there before)
+                stale = {t for t in stale | {(x, n, args[2]) for x, n in places} if sh.place_in(t) and t != here + (args[2],)}
             elif op == 'Clear':
                 stale = {t for t in stale if t[0] != args[0]}
-            plan = plan or _follow_ups(rnd, sh, K, op, args, obs)
+            plan = plan or _follow_ups(rnd, sh, K, op, args, obs, ident)
         traces.append({'ki': ki + 1, 'ci': ci + 1, 'fresh': True, 'events': events})
         if len(traces) % 20 == 0:
             import gc
